@@ -1033,7 +1033,24 @@ pub fn handle(op: &str, a: &[&str]) -> Option<String> {
             );
             match oracle(&req, &sections, endian) {
                 Ok(()) => Some(s),
-                Err(why) => Some(format!("{s} #oracle:{why}")),
+                Err(why) => {
+                    // two request classes that the writer accepts although it cannot encode them get
+                    // their own failure class (signature), whatever the reader then trips over
+                    let bad_asz = req.units.iter().any(|u| !matches!(u.asz, 1 | 2 | 4 | 8));
+                    let nul = req.units.iter().any(|u| {
+                        intended_order(u).iter().any(|(id, _)| {
+                            id.map_or(false, |id| intended_attrs(u, id).iter().any(|(_, v)| matches!(v, Val::Str(b) if b.contains(&0))))
+                        })
+                    });
+                    let class = if nul {
+                        "accepted-nul-in-string "
+                    } else if bad_asz {
+                        "accepted-address-size "
+                    } else {
+                        ""
+                    };
+                    Some(format!("{s} #oracle:{class}{why}"))
+                }
             }
         }
     }
@@ -1160,7 +1177,17 @@ fn gen_val(rng: &mut Rng, u: usize, units: &[GenUnit], nstr: usize, nlstr: usize
             41 => format!("irefsym {}", rng.below(10)),
             42 => "lpref".into(),
             43 => format!("macinfo {}", rng.boundary_u64()),
-            44 => format!("uref {}", units[u].n_ids + rng.below(3) as usize),
+            44 => {
+                if rng.chance(1, 2) {
+                    format!("uref {}", units[u].n_ids + rng.below(3) as usize)
+                } else {
+                    let n = 1 + rng.below(4) as usize;
+                    let mut b = rng.bytes(n);
+                    let k = rng.below(b.len() as u64) as usize;
+                    b[k] = 0;
+                    format!("str {}", h(&b))
+                }
+            }
             _ => format!("expr 1 conv {}", some_id(rng, u)),
         };
     }
